@@ -224,8 +224,17 @@ class Rot(_Generic):
     def as_euler(self, seq, degrees=False):
         cx = ctx()
         outs = []
+        memo = cx.__dict__.setdefault("_as_euler", {})
         for m in self.mats:
+            key = (seq, _mkey(m))
+            if key in memo:
+                names = memo[key]
+                unit = "deg" if degrees else "rad"
+                vals = [z3.Real(nm) for nm in names]
+                outs.append([SV(v if degrees else v * theory.PI / 180, Ang({nm: 1}, 0, unit)) for v, nm in zip(vals, names)])
+                continue
             names = [f"eul!{next(cx.counter)}" for _ in seq]
+            memo[key] = names
             css = [theory.atom_cs(nm) for nm in names]
             E = euler_matrix(seq, css)
             eqs = [E[i][j] == m[i][j] for i in range(3) for j in range(3)]
@@ -233,14 +242,14 @@ class Rot(_Generic):
             proper = len(seq) == 3 and seq[0].lower() == seq[2].lower()
             rng = []
             if len(seq) == 3:
-                if degrees:
+                if True:  # atom constants always hold degrees
                     lo, hi, mid_lo, mid_hi = -180, 180, (0 if proper else -90), (180 if proper else 90)
                     rng = [vals[0] >= lo, vals[0] <= hi, vals[2] >= lo, vals[2] <= hi, vals[1] >= mid_lo, vals[1] <= mid_hi]
                 # sign of sin(second angle) follows from its range
                 rng.append(css[1][1] >= 0 if proper else css[1][0] >= 0)
             cx.axiom(f"as_euler({seq}): from_euler({seq}, result) == R, canonical ranges", z3.And(*(eqs + rng)))
             unit = "deg" if degrees else "rad"
-            outs.append([SV(v, Ang({nm: 1}, 0, unit)) for v, nm in zip(vals, names)])
+            outs.append([SV(v if degrees else v * theory.PI / 180, Ang({nm: 1}, 0, unit)) for v, nm in zip(vals, names)])
         if self.layout == "single":
             return obj(outs[0])
         if self.layout == "rows":
@@ -250,11 +259,29 @@ class Rot(_Generic):
     def as_quat(self, **k):
         cx = ctx()
         outs = []
+        memo = cx.__dict__.setdefault("_as_quat", {})
         for m in self.mats:
+            key = _mkey(m)
+            if key in memo:
+                outs.append([SV(v) for v in memo[key]])
+                continue
             i = next(cx.counter)
             x, y, z, w = [z3.Real(f"q{c}!{i}") for c in "xyzw"]
+            for (px, py, pz, pw) in memo.values():
+                dd = x * px + y * py + z * pz + w * pw
+                cx.axiom("Cauchy-Schwarz instance for two quaternions: (q.p)^2 <= |q|^2 |p|^2 (theorem of real arithmetic; proved as lemma lagrange_identity + squares >= 0)",
+                         dd * dd <= (x * x + y * y + z * z + w * w) * (px * px + py * py + pz * pz + pw * pw))
+                if not QUAT_TOL[0]:
+                    cx.axiom("Cauchy-Schwarz for two UNIT quaternions: -1 <= q.p <= 1 (lemmas lagrange_identity, cauchy_schwarz_range)", z3.And(dd >= -1, dd <= 1))
+            memo[key] = (x, y, z, w)
+            if QUAT_TOL[0]:
+                # float-robust form of the contract: the returned quaternion is unit only up to rounding
+                e = z3.Real(f"qeps!{i}")
+                cx.axiom("as_quat() [float-robust form]: | |q|^2 - 1 | <= EPS, 0 < EPS <= 1e-9", z3.And(x * x + y * y + z * z + w * w == 1 + e, e >= -EPS, e <= EPS, EPS > 0, EPS <= z3.RealVal("1/1000000000")))
+                outs.append([SV(x), SV(y), SV(z), SV(w)])
+                continue
             R = quat_matrix(x, y, z, w)
-            eqs = [R[a][b] == m[a][b] for a in range(3) for b in range(3)]
+            eqs = [m[a][b] == R[a][b] for a in range(3) for b in range(3)]
             cx.axiom("as_quat(): unit quaternion (x,y,z,w) with R(q) == R", z3.And(x * x + y * y + z * z + w * w == 1, *eqs))
             outs.append([SV(x), SV(y), SV(z), SV(w)])
         if self.layout == "single": return obj(outs[0])
@@ -268,6 +295,29 @@ class Rot(_Generic):
         raise Unsupported("Rotation.as_rotvec")
 
     def __repr__(self): return f"Rot({self.layout},{len(self.mats)})"
+
+
+QUAT_TOL = [False]
+EPS = z3.Real("EPS")
+
+
+def _mkey(m):
+    return "|".join(z3.simplify(m[i][j]).sexpr() for i in range(3) for j in range(3))
+
+
+def opaque_rot(prefix, layout="single"):
+    """a symbolic rotation given by its matrix entries (plain reals) with the facts R^T R = I and det R = 1"""
+    cx = ctx()
+    m = [[z3.Real(f"{prefix}{i}{j}") for j in range(3)] for i in range(3)]
+    facts = []
+    for i in range(3):
+        for j in range(i, 3):
+            facts.append(sum(m[k][i] * m[k][j] for k in range(3)) == (1 if i == j else 0))
+            facts.append(sum(m[i][k] * m[j][k] for k in range(3)) == (1 if i == j else 0))
+    det = (m[0][0] * (m[1][1] * m[2][2] - m[1][2] * m[2][1]) - m[0][1] * (m[1][0] * m[2][2] - m[1][2] * m[2][0]) + m[0][2] * (m[1][0] * m[2][1] - m[1][1] * m[2][0]))
+    facts.append(det == 1)
+    cx.axiom(f"{prefix} is a rotation matrix: R^T R = R R^T = I, det R = 1", z3.And(*facts))
+    return Rot([m], layout), m
 
 
 def quat_matrix(x, y, z, w):
